@@ -107,6 +107,9 @@ inductive Op2 where
   | setpref (p : Rat)
   | mult (p : Rat)
   | copy
+  /-- copies are queried at `(x,y)` while the source is overwritten / destroyed; afterwards the
+      source is a newly constructed object of the same table and prefactor -/
+  | clobber (x y : Rat)
   deriving Repr
 
 def step2 (o : Obj2) : Op2 → Except Err (Ans × Obj2)
@@ -118,6 +121,10 @@ def step2 (o : Obj2) : Op2 → Except Err (Ans × Obj2)
   | .setpref p => .ok (.unit, { o with pref := p })
   | .mult p => .ok (.unit, { o with pref := o.pref * p })
   | .copy => .ok (.unit, o)
+  | .clobber x y => match o.interpolate x y with
+    | .ok (v, _) => .ok (.val v, { o with ox := { o.ox with st := { jLast := 0, corr := false } },
+                                          oy := { o.oy with st := { jLast := 0, corr := false } } })
+    | .error e => .error e
 
 def run2 (o : Obj2) : List Op2 → Except Err (List Ans × Obj2)
   | [] => .ok ([], o)
@@ -131,5 +138,47 @@ def answer2 (o : Obj2) (q : Op2) : Except Err Ans :=
   match step2 o q with
   | .ok (a, _) => .ok a
   | .error e => .error e
+
+/-! ### A pool of objects: copies, assignments and destruction across objects.
+    Objects are values: a copy is the same value in another slot, assigning a newly constructed
+    object replaces the value of that slot only, destroying a slot touches no other slot. -/
+
+inductive POp where
+  | make (s t : Nat)          -- slot s := Interpolation(table t)   (construct or assign)
+  | copyConstruct (i j : Nat) -- slot j := new Interpolation(slot i)
+  | copyAssign (i j : Nat)    -- slot j = slot i
+  | destroy (s : Nat)
+  | call (s : Nat) (op : Op)
+  deriving Repr
+
+inductive PErr where
+  | diag      -- the library stops with a diagnostic
+  | invalid   -- the request addresses a slot that is not alive / a table that does not exist
+  deriving DecidableEq, Repr
+
+abbrev Pool := Array (Option Obj)
+
+def poolStep (tables : Array (List Rat × List Rat)) (pool : Pool) : POp → Except PErr (Ans × Pool)
+  | .make s t =>
+    if s < pool.size then
+      match tables[t]? with
+      | some (xs, ys) => match mk xs ys (-1) (-1) with
+        | .ok o => .ok (.unit, pool.set! s (some o))
+        | .error _ => .error .diag
+      | none => .error .invalid
+    else .error .invalid
+  | .copyConstruct i j | .copyAssign i j =>
+    if j < pool.size then
+      match pool.getD i none with
+      | some o => .ok (.unit, pool.set! j (some o))
+      | none => .error .invalid
+    else .error .invalid
+  | .destroy s => if s < pool.size then .ok (.unit, pool.set! s none) else .error .invalid
+  | .call s op =>
+    match pool.getD s none with
+    | some o => match step o op with
+      | .ok (a, o') => .ok (a, pool.set! s (some o'))
+      | .error _ => .error .diag
+    | none => .error .invalid
 
 end Lp.C09
